@@ -605,6 +605,10 @@ func (x *Exec) applyContract(e *ast.CallExpr, st *State, fn *types.Func, c *Cont
 	}
 	pre := st.clone()
 	ctx := &cctx{x: x, st: st, old: pre, env: env, callee: c}
+	for _, l := range c.Lets {
+		r := ctx.with(l.C).eval(l.C.Expr)
+		env[l.Name] = cbind{r.v, r.t}
+	}
 	callName := x.site("pre@"+c.Short, e)
 	for _, r := range c.Requires {
 		g := x.cbool(r.Expr, ctx.with(r))
